@@ -113,14 +113,10 @@ func (srv *Session) consumeSingleCommand(ctx context.Context, reader *buffer.Rea
 	}
 
 	verifPoint("cmd:received")
-	if srv.closing.Load() {
+	if !srv.admit() {
 		return nil
 	}
 
-	verifPoint("cmd:admitted")
-	// NOTE: we increase the wait group by one in order to make sure that idle
-	// connections are not blocking a close.
-	srv.wg.Add(1)
 	srv.logger.Debug("<- incoming command", slog.Int("length", length), slog.String("type", t.String()))
 	err = srv.handleCommand(ctx, conn, t, reader, writer)
 	srv.wg.Done()
